@@ -8,7 +8,7 @@ import (
 // TODO Length is now only used by the "size" filter.
 // Maybe it should go somewhere else.
 
-// Length returns the length of a string or array. In keeping with Liquid semantics,
+// Length returns the length of a string (or of the text a number or boolean prints as) or array. In keeping with Liquid semantics,
 // and contra Go, it does not return the size of a map.
 func Length(value any) int {
 	value = ToLiquid(value)
@@ -21,6 +21,11 @@ func Length(value any) int {
 		return ref.Len()
 	case reflect.String:
 		return utf8.RuneCountInString(ref.String())
+	case reflect.Bool, reflect.Float32, reflect.Float64,
+		reflect.Int, reflect.Int8, reflect.Int16, reflect.Int32, reflect.Int64,
+		reflect.Uint, reflect.Uint8, reflect.Uint16, reflect.Uint32, reflect.Uint64, reflect.Uintptr:
+		// like the other string filters, size takes a number or a boolean as the text it prints as
+		return utf8.RuneCountInString(Sprint(value))
 	default:
 		return 0
 	}
